@@ -3,15 +3,18 @@
    pre-state (replayed against the library by tools/workflow.py). *)
 EXTENDS Workflow, Json
 CONSTANTS EmitTrans, EmitAt      \* EmitAt > 0: print the whole history when it reaches this length (simulation mode)
-VARIABLE hist
-MCInit == Init /\ hist = <<>>
+VARIABLES hist,
+          regen       \* has prepareAll() replaced computed operators of the container? (the statuses alone do not tell:
+                      \* the transitions out of such a state are explored separately, seeded change C10-c)
+MCInit == Init /\ hist = <<>> /\ regen = FALSE
 MCNext == /\ Next
           /\ hist' = Append(hist, <<last'.obj, last'.op>>)
+          /\ regen' = (regen \/ st'["OPS"] < st["OPS"])
           /\ EmitTrans => PrintT("@@PV " \o ToJson([pre |-> hist, obj |-> last'.obj, op |-> last'.op, doc |-> Documented(st, last'.obj, last'.op)]))
           /\ (EmitAt > 0 /\ Len(hist') = EmitAt) => PrintT("@@PV " \o ToJson([hist |-> hist']))
-mcvars == <<vars, hist>>
+mcvars == <<vars, hist, regen>>
 MCSpec == MCInit /\ [][MCNext]_mcvars
-View == st
+View == <<st, regen>>
 MonotoneA == [][\A o \in Objs \ {"OPS"} : st'[o] >= st[o]]_mcvars
 RegressA == [][st'["OPS"] < st["OPS"] => last'.obj = "OPS" /\ last'.op = "prepare"]_mcvars
 OnlyOwnDataA == [][last'.changed \subseteq {last'.obj}]_mcvars
